@@ -281,18 +281,18 @@ def buckets(tier):
     bl = []
     for kind in ('scalar', 'vector'):
         bl.append(Bucket('history:' + kind, (lambda kind=kind: history_cases(tier, kind)), prop_history,
-                         {'quick': 60, 'thorough': 350}, nontrivial=_nontrivial, classes=_classes,
+                         {'quick': 160, 'thorough': 600}, nontrivial=_nontrivial, classes=_classes,
                          shards={'quick': 6, 'thorough': 12}, weight=10.0))
         bl.append(Bucket('history-buffers:' + kind,
                          (lambda kind=kind: history_cases(tier, kind, first='rmw', families=['un', 'bin', 'binc', 'set', 'rmw', 'get', 'buf'])),
-                         prop_history, {'quick': 60, 'thorough': 300}, nontrivial=_nontrivial, classes=_classes,
+                         prop_history, {'quick': 160, 'thorough': 500}, nontrivial=_nontrivial, classes=_classes,
                          shards={'quick': 4, 'thorough': 6}, weight=10.0))
         bl.append(Bucket('history-elementwise:' + kind,
                          (lambda kind=kind: history_cases(tier, kind, first='un', families=['un', 'un', 'special', 'bin', 'binc', 'pow'])),
-                         prop_history, {'quick': 60, 'thorough': 300}, nontrivial=_nontrivial, classes=_classes,
+                         prop_history, {'quick': 160, 'thorough': 500}, nontrivial=_nontrivial, classes=_classes,
                          shards={'quick': 2, 'thorough': 6}, weight=10.0))
         bl.append(Bucket('history-drivers:' + kind,
                          (lambda kind=kind: history_cases(tier, kind, first='un', families=['un', 'bin', 'binc', 'pow', 'dot'], driver_heavy=True)),
-                         prop_history, {'quick': 40, 'thorough': 300}, nontrivial=_nontrivial, classes=_classes,
+                         prop_history, {'quick': 160, 'thorough': 500}, nontrivial=_nontrivial, classes=_classes,
                          shards={'quick': 3, 'thorough': 6}, weight=10.0))
     return bl
